@@ -22,6 +22,7 @@ import (
 	"verif/internal/bx"
 	"verif/internal/harness"
 	"verif/internal/refre"
+	"verif/internal/space"
 )
 
 type lazyCfg struct {
@@ -189,9 +190,11 @@ func runeStarts(h []byte) []int {
 // Plan builds the C14 plan.
 func Plan(tier string) *harness.Plan {
 	thorough := tier == "thorough"
-	t := bx.Tier{PN: 3, SK: 0, LASCII: 3, LUTF8: 2, LRaw: 2, EmbedW: -1, TokL: 3, TokN: 5, SeedEmbW: -1, Budget: 150 * time.Second}
+	t := bx.Tier{PN: 3, SK: 0, LASCII: 3, LUTF8: 2, LRaw: 2, EmbedW: -1, TokL: 3, TokN: 5, SeedEmbW: -1, SeedEmbFirst: 1000, SeedTokL: 4, SeedTokN: 6, Budget: 150 * time.Second}
 	if thorough {
-		t = bx.Tier{PN: 4, SK: 1, LASCII: 3, LUTF8: 3, LRaw: 2, EmbedW: -1, TokL: 3, TokN: 6, SeedEmbW: -1, Budget: 40 * time.Minute}
+		// plus every 4-node pattern on ASCII haystacks of <= 2 symbols and the one-edit seed neighbourhoods on their
+		// token words (a superset of the quick space), under the larger configuration list
+		t.PN, t.HugePN, t.LHuge, t.SK, t.SeedEmbFirst, t.Budget = 4, 3, 2, 1, len(space.Seeds), 25*time.Minute
 	}
 	sp := bx.NewSpace(t)
 	cfgs := lazyConfigs(thorough)
